@@ -278,9 +278,11 @@ def make_tasks(tier, seed):
         tasks.append(dict(name=f"grid-ops-{'x'.join(map(str, m))}-base{base}-t", fn='task_grid_ops', kw=dict(mesh_shape=m, cfg=cfg, base=base, K=3)))
   for m in ((1, 2, 2), (2, 4, 1), (1, 6, 1), (1, 1, 6), (1, 2, 4)):
     tasks.append(dict(name=f"einsum-{'x'.join(map(str, m))}", fn='task_sharded_einsum', kw=dict(mesh_shape=m)))
-  for m, K in (((2, 1, 1), 4), ((2, 2, 2), 6), ((4, 1, 2), 8), ((2, 1, 1), 3), ((4, 1, 2), 6)):      # the last two: length not divisible by the shard count
+  for m, K in (((2, 1, 1), 4), ((2, 2, 2), 6), ((4, 1, 2), 8), ((2, 1, 1), 3), ((4, 1, 2), 6),
+               # vertical axis sizes that are not powers of two (every shard must receive the totals of ALL preceding shards)
+               ((3, 1, 1), 6), ((3, 2, 1), 7), ((5, 1, 1), 10), ((6, 1, 1), 12), ((7, 1, 1), 7), ((8, 1, 1), 16)):      # the last two: length not divisible by the shard count
     tasks.append(dict(name=f"cumsum-{'x'.join(map(str, m))}-K{K}", fn='task_cumsum', kw=dict(mesh_shape=m, K=K)))
-  for m, ln in (((2, 1, 1), 'dy4'), ((2, 2, 1), 'dy2'), ((1, 2, 2), 'dy3')):
+  for m, ln in (((2, 1, 1), 'dy4'), ((2, 2, 1), 'dy2'), ((1, 2, 2), 'dy3'), ((3, 1, 1), 'dy3')):
     tasks.append(dict(name=f"pe-implicit-{'x'.join(map(str, m))}-{ln}", fn='task_pe', kw=dict(mesh_shape=m, cfg=cfg_small, levels=LS[ln].tolist(), lname=ln, what='implicit')))
   tasks.append(dict(name='pe-explicit-2x2x1-dy2', fn='task_pe', kw=dict(mesh_shape=(2, 2, 1), cfg=cfg_small, levels=LS['dy2'].tolist(), lname='dy2', what='explicit')))
   tasks.append(dict(name='pe-step-2x2x1-dy2', fn='task_pe', kw=dict(mesh_shape=(2, 2, 1), cfg=cfg_small, levels=LS['dy2'].tolist(), lname='dy2', what='step')))
